@@ -145,13 +145,21 @@ def _pass_y_table(ctx):
 INPLACE_TENSOR = ("mul_", "add_", "sub_", "div_", "copy_", "zero_", "fill_", "addcmul_", "addcdiv_", "neg_", "clamp_")
 
 
+def unlist(t):
+    """list(model.parameters()) holds the same parameter objects in the same order"""
+    while t.op == "call" and t.args[0].op == "global" and t.args[0].args[0] in ("builtins.list", "builtins.tuple") and len(t.args[1]) == 1 \
+            and not t.args[2]:
+        t = t.args[1][0]
+    return t
+
+
 def _torch_snapshots(ctx, A, r, cls):
     """The gradients of the two backward passes are *copied* out of .grad (zero_grad / the next backward reuse the buffers),
     and the parameters' .grad buffers are not edited in place while a snapshot may still alias them."""
     fq = r.func
     params = A.entry(r, "self.predictor_model.parameters()")
     snaps = [e for e in r.events if e.kind == "store" and e.data.get("tkind") == "name" and e.func == fq and not e.loops
-             and e.data["value"].op == "comp" and len(e.data["value"].args[2]) == 1 and e.data["value"].args[2][0][0] is params]
+             and e.data["value"].op == "comp" and len(e.data["value"].args[2]) == 1 and unlist(e.data["value"].args[2][0][0]) is params]
 
     def cloned(body):
         return contains(body, lambda s_: s_.op == "call" and ((s_.args[0].op == "global" and s_.args[0].args[0] in ("torch.clone", "copy.deepcopy"))
@@ -255,7 +263,7 @@ def _routing(ctx, A, r, e, lib, cls, gP, gA):
         obj = e.data["obj"]
         lev = [x for x in r.events if x.kind == "loop" and x.data.get("lid") == e.loops[-1]][0]
         it = lev.data["iter"]
-        ok = it.op == "call" and it.args[0] is glob("builtins.enumerate") and A.eq(it.args[1][0], A.entry(r, "self.predictor_model.parameters()"))
+        ok = it.op == "call" and it.args[0] is glob("builtins.enumerate") and A.eq(unlist(it.args[1][0]), A.entry(r, "self.predictor_model.parameters()"))
         i, p = mk("sub", lev.data["elem"], const(0)), mk("sub", lev.data["elem"], const(1))
         ok = ok and obj is p and gP.args[1] is i and gA.args[1] is i
         # the gradient lists enumerate the same parameters
